@@ -207,6 +207,25 @@ func goExecMore3(t []string) (string, bool) {
 			l = strings.Join(tr, ",")
 		}
 		return fmt.Sprintf("ok writes=%s close=%s out=%s nwrites=%d", l, boolS(err == nil), keys.Hex(bytes.Join(w.written, nil)), len(w.written)), true
+	case "st.aw":
+		// NewArmor62EncoderStream call by call: what has reached the underlying writer after the
+		// constructor, after every Write and after Close
+		var buf bytes.Buffer
+		w, err := saltpack.NewArmor62EncoderStream(&buf, saltpack.MessageType(atoi(t[1])), string(unhex(t[2])))
+		if err != nil {
+			return "err " + script.Class(err), true
+		}
+		lens := []string{fmt.Sprint(buf.Len())}
+		for _, h := range splitL(t[3]) {
+			if _, err := w.Write(unhex(h)); err != nil {
+				return "err " + script.Class(err), true
+			}
+			lens = append(lens, fmt.Sprint(buf.Len()))
+		}
+		if err := w.Close(); err != nil {
+			return "err " + script.Class(err), true
+		}
+		return fmt.Sprintf("ok lens=%s out=%s", strings.Join(lens, "."), keys.Hex(buf.Bytes())), true
 	}
 	return goExecMore4(t)
 }
